@@ -23,6 +23,7 @@ struct Cfg
     size_t      nkeys{4};
     bool        ts{false};
     float       lf{1.0f};
+    bool        skew{false}; // lock-entry clock skew (see main.cpp)
     char        val{'u'}; // 'u' = uint64_t, 'c' = heap-owning instance-counted value
 };
 
